@@ -5,7 +5,7 @@ From Coq Require Import PeanoNat Lia.
 From Gv Require Import lib.Bytes lib.Json lib.Gql lib.Exec
      C01.ProofsBase C01.ProofsFuel C01.ProofsSplit C01.ProofsSim C01.ProofsJoin C01.ProofsOverlap
      C01.ProofsTwoStep C01.ProofsViol C01.ProofsCtxBase C01.ProofsCtx C01.ProofsTwoStepWf C01.ProofsPlanAlg
-     C01.ProofsPlan C01.ProofsPlanOk C01.ProofsDedup C01.ProofsListHop
+     C01.ProofsPlan C01.ProofsPlanOk C01.ProofsDedup C01.ProofsListHop C01.ProofsListHopWf C01.ProofsListHopTn
      C01.ProofsTvStatic C01.ProofsTvDefs C01.ProofsTvHidden C01.ProofsPlanGen C01.ProofsPlan2.
 Open Scope N_scope.
 
@@ -43,8 +43,21 @@ Section Link2.
 
   Lemma sub_at_wf i : forallb (config_wf_b sc) subs = true -> (i < length subs)%nat -> config_wf_b sc (sub_at' i) = true.
   Proof. intros H Hi. rewrite forallb_forall in H. apply H. unfold sub_at. apply nth_In. exact Hi. Qed.
-  Lemma sub_at_univ i : univ2_contract_b sc subs decls rdecls U = true -> (i < length subs)%nat -> univ_ok_b (sub_at' i) U = true.
+  Lemma sub_at_univ i : univ_contract_b sc decls rdecls subs U = true -> (i < length subs)%nat -> univ_ok_b (sub_at' i) U = true.
   Proof. intros H Hi. apply (univ_contract_sub sc decls rdecls subs U _ H). unfold sub_at. apply nth_In. exact Hi. Qed.
+
+  (* (U5): a list-typed field of the root object holds a list *)
+  Lemma root_list_value td fd nnl nni T f :
+    root_lists_b sc U = true -> find_type Q (s_types sc) = Some td -> find_field f (td_fields td) = Some fd ->
+    fd_type fd = list_ty nnl nni T -> exists items, hop_fv {| ov_ent := eQ; ov_repr := None |} f = FLst items.
+  Proof.
+    intros H Htd Hfd Hty. unfold root_lists_b in H. rewrite HeQ, Htd in H. rewrite forallb_forall in H.
+    destruct (find_field_In _ _ _ Hfd) as [Hin Hn]. specialize (H fd Hin). rewrite Hty, Hn in H.
+    assert (Hl : is_list_ty (list_ty nnl nni T) = true) by (unfold list_ty; destruct nnl, nni; reflexivity).
+    rewrite Hl in H. cbn [negb orb] in H. unfold hop_fv.
+    destruct (field_fval {| ov_ent := eQ; ov_repr := None |} f) as [j|t0 k| |l| | |t0 a|fs]; try discriminate.
+    exists l. reflexivity.
+  Qed.
 
   Lemma link2_of ds d :
     plan2_static_b sc subs frags vdsM supM g0 kq decls rdecls tn ds = true ->
@@ -53,17 +66,18 @@ Section Link2.
     wlink dfield2 a_of' m_of' tr' d.
   Proof.
     intros Hok Hc Hin Hf1 Hf2 Hn. unfold plan2_static_b in Hok.
+    unfold univ2_contract_b in Hc. apply andb_true_iff in Hc. destruct Hc as [Hc Hrl].
     repeat (apply andb_true_iff in Hok; destruct Hok as [Hok ?]).
     match goal with H : forallb (field2_static_b _ _ _ _ _ _ _ _ _ _) ds = true |- _ => rename H into HF end.
     match goal with H : forallb (fun vd => not_repr (vd_name vd)) vdsM = true |- _ => rename H into Hnr end.
     match goal with H : forallb (config_wf_b sc) subs = true |- _ => rename H into Hwfs end.
     rename Hok into Hfr.
     assert (Hkc : key_consistent decls U = true).
-    { unfold univ2_contract_b, univ_contract_b in Hc. apply andb_true_iff in Hc. destruct Hc as [Hc _].
-      apply andb_true_iff in Hc. apply Hc. }
+    { pose proof Hc as Hc'. unfold univ_contract_b in Hc'. apply andb_true_iff in Hc'. destruct Hc' as [Hc' _].
+      apply andb_true_iff in Hc'. apply Hc'. }
     assert (Hecs : forall e, In e U -> ent_contract_b sc decls rdecls e = true).
-    { intros e He. unfold univ2_contract_b, univ_contract_b in Hc. apply andb_true_iff in Hc. destruct Hc as [_ Hc].
-      rewrite forallb_forall in Hc. apply Hc. exact He. }
+    { intros e He. pose proof Hc as Hc'. unfold univ_contract_b in Hc'. apply andb_true_iff in Hc'. destruct Hc' as [_ Hc'].
+      rewrite forallb_forall in Hc'. apply Hc'. exact He. }
     rewrite forallb_forall in HF. specialize (HF d Hin). unfold field2_static_b in HF.
     apply andb_true_iff in HF. destruct HF as [HF Hfetch].
     apply andb_true_iff in HF. destruct HF as [HF Hreq1].
@@ -77,14 +91,14 @@ Section Link2.
       unfold fetch2_static_b in Hfetch. cbv zeta in Hfetch.
       repeat (apply andb_true_iff in Hfetch; destruct Hfetch as [Hfetch ?]).
       apply Nat.ltb_lt in Hfetch.
-      destruct (d2_shape d) as [nn|nnl nni] eqn:Esh; [|discriminate].
       destruct (find_type Q (s_types sc)) as [td|] eqn:Etd; [|discriminate].
       destruct (find_field (d2_name d) (td_fields td)) as [fd|] eqn:Efd'; [|discriminate].
       match goal with H : ty_eqb _ _ = true |- _ => apply ty_eqb_eq in H; rename H into Hty end.
       destruct (is_leaf_kind sc T) as [[|]|] eqn:Elk; try discriminate.
       match goal with H : (negb tn || _) = true |- _ => rename H into Htn end.
       match goal with H : reqs_static_b _ _ _ _ = true |- _ => rename H into Hrq end.
-      match goal with H : key_declared decls _ _ = true |- _ => rename H into Hkd end.
+      match goal with H : key_covered decls _ _ = true |- _ => rename H into Hkd end.
+      match goal with H : repr_fields_ok decls rdecls _ _ = true |- _ => rename H into Hrf end.
       match goal with H : keys_unaliased _ _ = true |- _ => rename H into Hunal end.
       match goal with H : keys_disjoint _ _ = true |- _ => rename H into Hdisj end.
       match goal with H : flat_okb _ _ _ _ _ _ (d2_selB d) = true |- _ => rename H into HokB end.
@@ -108,7 +122,40 @@ Section Link2.
       assert (Hb2 : (two_step_fuel ks g0 fM + g0 <= f2)%nat)
         by (clear -Hks Hf2; unfold two_step_fuel, plan2_fuel in *; lia).
       unfold root_sel2 in Hs1, Hreq1 |- *. unfold ab_sel2 in Hn |- *. rewrite Efd in Hs1, Hreq1 |- *.
-      cbn [shape_ty] in Hty.
+      assert (Hents : forall e, In e U -> en_type e = T ->
+                                find_by_repr U (repr_of e ks) = Some e /\ forallb (key_field_ok sc e) ks = true /\
+                                reqs_covered e (flat_of' T (d2_selB d)) ks = true).
+      { intros e HinU HTe. split; [|split].
+        - apply (key_covered_find decls); [exact Hkc|exact HinU|]. rewrite HTe. exact Hkd.
+        - apply (repr_fields_contract sc decls rdecls T ks e Hrf (Hecs e HinU) HTe).
+        - apply (reqs_static_covered sc decls rdecls T _ ks e Hrq (Hecs e HinU) HTe). }
+      destruct (d2_shape d) as [nn|nnl nni] eqn:Esh; cbn [shape_ty] in Hty.
+      2:{ (* a list of entities *)
+        destruct (root_list_value td fd nnl nni T (d2_name d) Hrl Etd Efd' Hty) as (items & Hfv).
+        assert (Hbl1 : (list_hop_fuel_bound ks g0 fM <= f1)%nat)
+          by (clear -Hks Hf1; unfold list_hop_fuel_bound, plan2_fuel in *; lia).
+        assert (Hbl2 : (list_hop_fuel_bound ks g0 fM + g0 <= f2)%nat)
+          by (clear -Hks Hf2; unfold list_hop_fuel_bound, plan2_fuel in *; lia).
+        assert (HentL : forall it e, In it items ->
+                    obj_target U (hop_cargs sc vars (d2_args d) fd) it = Some (Some e) -> obj_type_ok sc T e = true ->
+                    en_type e = T /\ find_by_repr U (repr_of e ks) = Some e /\
+                    forallb (key_field_ok sc e) ks = true /\ reqs_covered e (flat_of' T (d2_selB d)) ks = true).
+        { intros it e _ He Hok'.
+          assert (HTe : en_type e = T) by (apply (obj_type_ok_object sc); assumption).
+          assert (HinU : In e U) by (apply (obj_target_In _ _ _ _ He)).
+          split; [exact HTe|]. apply Hents; assumption. }
+        destruct tn.
+        - cbn [negb orb] in Htn.
+          exact (federated_two_step_list_tn_wf_main U sc frags vars (sub_at' (d2_root d)) (sub_at' si) vdsM supM eQ Q eQ
+                   (d2_alias d) (d2_name d) (d2_args d) [] [] nnl nni T td fd items T ks
+                   (d2_selA d) (d2_selB d) (flat_of' T (d2_selA d)) (flat_of' T (d2_selB d)) g0 kq kq
+                   Hname Etd Efd' Hty Elk Hfv Hfr Hs1 HsB Hwf0 Hu0 Hreq1 HeU HeT Hwf2 Hu2 Hreq2
+                   (vars2l_agree_client vdsM supM T (d2_selB d) [] Hnr) Hroot2 HflA HflB Hdisj Hunal HentL Htn fM f1 f2 Hn Hbl1 Hbl2).
+        - exact (federated_two_step_list_wf_main U sc frags vars (sub_at' (d2_root d)) (sub_at' si) vdsM supM eQ Q eQ
+                   (d2_alias d) (d2_name d) (d2_args d) [] [] nnl nni T td fd items T ks
+                   (d2_selA d) (d2_selB d) (flat_of' T (d2_selA d)) (flat_of' T (d2_selB d)) g0 kq kq
+                   Hname Etd Efd' Hty Elk Hfv Hfr Hs1 HsB Hwf0 Hu0 Hreq1 HeU HeT Hwf2 Hu2 Hreq2
+                   (vars2l_agree_client vdsM supM T (d2_selB d) [] Hnr) Hroot2 HflA HflB Hdisj Hunal HentL fM f1 f2 Hn Hbl1 Hbl2). }
       assert (Hmain :
                 step2 U (sub_at' si) frags vdsM supM (Some (d2_key d)) (d2_key d) [] nn T ks (d2_selB d) (flat_of' T (d2_selA d))
                       (exec_sels (sub_at' (d2_root d)) U frags vars Sub f1 Q {| ov_ent := eQ; ov_repr := None |}
@@ -123,10 +170,7 @@ Section Link2.
         + intros e He Hok'.
           assert (HTe : en_type e = T) by (apply (obj_type_ok_object sc); assumption).
           assert (HinU : In e U) by (apply (obj_target_In _ _ _ _ He)).
-          split; [exact HTe|]. split; [|split].
-          * apply (key_consistent_find decls); [exact Hkc|exact HinU|]. rewrite HTe. apply key_declared_In. exact Hkd.
-          * apply (key_declared_fields sc decls rdecls T ks e Hkd (Hecs e HinU) HTe).
-          * apply (reqs_static_covered sc decls rdecls T _ ks e Hrq (Hecs e HinU) HTe). }
+          split; [exact HTe|]. apply Hents; assumption. }
       destruct tn.
       + (* the real request: with the planner's __typename *)
         cbn [negb orb] in Htn.
